@@ -39,11 +39,12 @@ class Kit(object):
         variants = subset(rng, gen_mf.VARIANTS, 1, 3)
         arches = subset(rng, pools.ARCHES, 1, 3)
         srpms = []
+        memo = []
         for _ in range(rng.randint(1, 12 if big else 7)):
             if m == "M-RP":
                 K["adds"].append(gen_mf.rpm_add(rng, variants, arches, 0, srpms))
             elif m == "M-MO":
-                K["adds"].append(gen_mf.module_add(rng, variants, arches, 0))
+                K["adds"].append(gen_mf.module_add(rng, variants, arches, 0, memo))
             else:
                 K["adds"].append(gen_mf.extra_add(rng, variants, arches, 0))
         return K
